@@ -27,8 +27,20 @@ fn summary(o: &AsmOutcome) -> String {
 }
 
 fn gen_source(rng: &mut Rng, stack: bool, prev_labels: &[String]) -> (String, &'static str) {
-    let kind = rng.below(9);
+    let kind = rng.below(10);
     match kind {
+        9 => {
+            // two labels which differ only in letter case, and a reference in a third spelling
+            // (undefined: labels are case-sensitive); label order / count varied
+            let mut t = String::new();
+            let names = [("Value", "VALUE", "value"), ("loop", "LOOP", "Loop"), ("Msg", "msg", "MSG")];
+            let (a, b, c) = *rng.pick(&names);
+            for k in 0..rng.below(4) {
+                t.push_str(&format!("p{} add r1 r1 #1\n", k));
+            }
+            t.push_str(&format!("{} .fill x1\n{} .fill x2\nld r0 {}\nhalt\n", a, b, c));
+            (t, "case_variants")
+        }
         8 => {
             // many labels (the symbol table grows well beyond its initial capacity)
             let n = 20 + rng.below(60);
